@@ -238,6 +238,15 @@ def op_st():
     )
 
 
+def _random_case(ctx):
+    return st.fixed_dictionaries({
+        "ops": st.lists(op_st(), min_size=1, max_size=40).map(lambda l: [["create"]] + [list(o) for o in l]),
+        "width": st.sampled_from([5, 10, 10, 13, 20]),
+    })
+
+
+HYP = {"random": (_random_case, check_random)}
+
 def run(ctx):
     quick = ctx.tier == "quick"
     if quick:
@@ -252,4 +261,4 @@ def run(ctx):
         "ops": st.lists(op_st(), min_size=1, max_size=40).map(lambda l: [["create"]] + [list(o) for o in l]),
         "width": st.sampled_from([5, 10, 10, 13, 20]),
     })
-    ctx.hyp(case, lambda c: check_random(ctx, c), 800 if quick else 30000, salt=1)
+    ctx.hyp_sharded("random", 4000 if quick else 60000, salt=1)
